@@ -31,7 +31,8 @@ Pins     == {"none", "p", "range", "at", "two", "label"}
 YPs      == {"none", "year", "court", "bracket"}
 Parens   == {"none", "simple", "nested", "double"}
 Terms    == {"dot", "semi", "comma", "end", "space"}
-Trails   == {"none", "sentence", "parens"}
+Trails   == {"none", "sentence", "parens", "nameref"}   \* "nameref": the defendant's name comes back later ("... in Bar at 12 ...":
+                                                         \* a reference citation, which is not one of the written citations judged here)
 FormsSet == {"full", "short", "supra", "id", "law", "journal"}
 
 Shape == [form : FormsSet, lead : Leads, parties : Parties, preyear : BOOLEAN, pin : Pins,
@@ -39,6 +40,7 @@ Shape == [form : FormsSet, lead : Leads, parties : Parties, preyear : BOOLEAN, p
 
 Valid(s) ==
   /\ (s.term = "end") = (s.trail = "none")
+  /\ (s.trail = "nameref" => (s.form = "full" /\ s.parties = "pv"))
   /\ (s.term = "space" => (s.paren # "none" \/ s.yp # "none" \/ (s.form \in {"supra", "id"} /\ s.pin = "none")))
   /\ CASE s.form = "full" ->
             /\ s.parties \in {"none", "pv", "pvmulti", "inre", "ante", "antepin"}
